@@ -1275,15 +1275,13 @@ func EvalReduceFn(reduceFn ast.ApplyFn, rows []ast.ConstSubstList) (ast.Constant
 			rowHash := ast.HashConstants(newTuple)
 			slot := seen[rowHash]
 			shouldAdd := true
-			if slot != nil {
-				shouldAdd = false
-				// Check for collisions.
-				for _, subst := range slot {
-					existing := subst.GetRow(domain)
-					if !ast.EqualsConstants(existing, newTuple) {
-						shouldAdd = true
-						break
-					}
+			// Rows with the same hash may still differ (collision): the row is
+			// new only if it differs from every row seen with that hash.
+			for _, subst := range slot {
+				existing := subst.GetRow(domain)
+				if ast.EqualsConstants(existing, newTuple) {
+					shouldAdd = false
+					break
 				}
 			}
 			if shouldAdd {
